@@ -721,9 +721,13 @@ struct ConvertOptions {
 
 /// Functions whose arguments are calc sums: `+` and `-` need whitespace on both sides.
 fn is_math_function(name: &str) -> bool {
-    ["calc", "min", "max", "clamp"]
-        .iter()
-        .any(|x| name.eq_ignore_ascii_case(x))
+    [
+        "calc", "min", "max", "clamp", "round", "mod", "rem", "sin", "cos", "tan", "asin", "acos",
+        "atan", "atan2", "pow", "sqrt", "hypot", "log", "exp", "abs", "sign", "calc-size",
+        "-webkit-calc", "-moz-calc",
+    ]
+    .iter()
+    .any(|x| name.eq_ignore_ascii_case(x))
 }
 
 fn convert_rpx_in_block(
